@@ -406,3 +406,16 @@ Proof. exact (proj2 (step_EF s e)). Qed.
 
 Theorem store_only_grows s e : store_le (aStore s) (aStore (fst (step s e))).
 Proof. exact (proj1 (step_EF s e)). Qed.
+
+(** non-vacuity *)
+From GV Require Import Model.SMWalk Proofs.SMWitness.
+Example ex_emit_w3 :
+  existsb is_emit_pv (nth 3 (run_events (sm0 true) w3) []) = true /\
+  List.length (filter is_emit_pv (List.concat (run_events (sm0 true) w3))) = 1%nat.
+Proof. vm_compute. split; reflexivity. Qed.
+
+Definition ex_req_hist : list event :=
+  [ EvStart; EvRERespVRV (mkv 1 0 1 (vs_of 0 0 [] []) []);
+    EvView (mkv 1 0 2 (vs_of 30 0 [([7], 20); ([], 10)] []) [gph 7]) None ].
+Example ex_one_request : reqs (last (run_events (sm0 true) ex_req_hist) []) = [K_consider].
+Proof. vm_compute. reflexivity. Qed.
